@@ -11,9 +11,19 @@ PROP = {
              "harness/extras/sniff/c17_tls_test.go", "harness/extras/sniff/c17_udp_test.go"],
             "^TestVerifC17", ["tcp-short", "tcp-http", "tcp-tls", "udp-quic"], race=False,
             timeout_quick=900, timeout_thorough=3600),
+        job("server", "core", "./internal/integration_tests/", "integration_tests",
+            ["harness/core/internal/integration_tests/vfnet_test.go",
+             "harness/core/internal/integration_tests/c17_server_test.go"], "^TestVerifC17Server",
+            ["server-replay", "server-udp-first"], race=False, timeout_quick=300, timeout_thorough=1800),
     ],
+    "parallel": 2,
     "min_events": 200000,
     "rule": (
+        "[server job: real server+client on simnet in a bubble, harness-owned hook standing in for the sniffer] server-replay: the hook "
+        "reads 0 / 1 / half / all of what the client sent (1 B .. 256 KiB, sizes around 32 KiB, client chunking whole/1200/333/random, "
+        "with and without traffic logger and fast open) and hands it back for replay: the target must receive replay+rest == sent and "
+        "the outbound must be dialled with the rewritten host and the original port. server-udp-first: the first datagram of a hooked "
+        "UDP session (1..3000 B) reaches the socket byte-identical at the rewritten destination. [sniff job] "
         "The driver does what core/server does around the hook: Check(), then TCP(stream,&addr) / UDP(data,&addr), then the relay reads "
         "the rest of the stream / forwards the very slice. TCP case = (client bytes, chunk sizes with VIRTUAL arrival times, FIN time or "
         "never, FIN glued to the last data read or separate, per-Read cap, coalescing, zero-length reads, Sniffer.Timeout incl. 0=default, "
@@ -48,7 +58,11 @@ PROP = {
         "udp-quic: first-flight datagrams captured from real quic-go dials (v1 and v2, X25519-only so that the hello fits one datagram, "
         "default curves so that it spans two) inside a bubble over a recording black-hole socket; the captured ClientHellos re-packed with "
         "the reference codec (version 1/2, DCID 0..20, SCID 0..20, token 0..80, packet number 0..2 or random in 1..4 bytes, 2/4-byte "
-        "Length, 1..4 CRYPTO frames in order or shuffled with PADDING/PING between, coalesced trailer); truncations, 1-3 bit flips, real "
+        "Length, 1..4 CRYPTO frames in order or shuffled with PADDING/PING between, coalesced trailer); CRYPTO frame layouts that are NOT a "
+        "partition of the ClientHello (overlapping frames, exact duplicates, a gap inside / outside the server name without and with "
+        "duplicated bytes of the same or a different total length, a frame beyond the end, missing start, hello cut short plus duplicates; "
+        "shuffled or not) - for these a name only counts as present if it lies inside one frame or inside one maximal run of covered "
+        "CRYPTO stream bytes, never across a hole; truncations, 1-3 bit flips, real "
         "header + random payload, random bytes (optionally long-header + version), later datagram of a two-datagram flight, the suite's "
         "own sample; slice with cap==len or inside a larger buffer. Oracles: data identical before/after; port; host decided by the "
         "reference codec (not decryptable as v1/v2 client Initial -> untouched; decryptable with complete ClientHello and mainstream "
